@@ -73,6 +73,15 @@ def scenarios(tier, seed):
                         if prob != "osc":
                             continue
                         sc["problem"], sc["constants"] = "osck", {"k": 1.0}
+                        # all four variants for the first two methods, one (rotating) for the others
+                        if m in ("RK4", "RK5") or thorough:
+                            for extra in ((n + seed + 1) % 4, (n + seed + 2) % 4, (n + seed + 3) % 4):
+                                sx = dict(sc)
+                                sx["ops"] = {0: [{"op": "integrate", "t": Q(0.5)}, {"op": "set", "what": "constants", "v": {"k": 3.0}}, {"op": "integrate"}],
+                                             1: [{"op": "integrate", "t": Q(0.5)}, {"op": "set", "what": "constants-inplace", "v": {"k": 3.0}}, {"op": "integrate"}],
+                                             2: [{"op": "set", "what": "constants-inplace", "v": {"k": 3.0}}, {"op": "integrate", "t": Q(0.5)}, {"op": "integrate"}],
+                                             3: [{"op": "integrate", "t": Q(0.5)}, {"op": "set", "what": "constants", "v": {"k": 3.0}}, {"op": "reset"}, {"op": "integrate"}]}[extra]
+                                scs.append(sx)
                         var = (n + seed) % 4
                         if var == 0:
                             sc["ops"] = [{"op": "integrate", "t": Q(0.5)}, {"op": "set", "what": "constants", "v": {"k": 3.0}}, {"op": "integrate"}]
